@@ -433,6 +433,11 @@ func (x *ExprEnv) call(n *ast.CallExpr) tval {
 				// here: the clause then demands that the antecedent is false at this point
 				// (errors after an unknown identifier are its consequences: the placeholder has no fields)
 				onlyUnknown := strings.HasPrefix(x.errs[ne], "unknown identifier")
+				if onlyUnknown && x.fr != nil && x.fr.fn != nil && !varExistsInFunc(x.fr.fn, strings.TrimSpace(strings.TrimPrefix(x.errs[ne], "unknown identifier"))) {
+					// not "out of scope here" but "no such variable anywhere in this function" (renamed or
+					// removed by an edit): the clause does not bind at all
+					onlyUnknown = false
+				}
 				if onlyUnknown {
 					x.errs = x.errs[:ne]
 					if x.assuming {
@@ -839,4 +844,50 @@ func (x *ExprEnv) ifaceField(b tval, name string) tval {
 	}
 	e.ifaceFieldUFs[uf] = ifaceFieldUF{b.typ, name, uf}
 	return tval{t: "(" + uf + " " + b.t + ")", typ: ft}
+}
+
+// varExistsInFunc: some variable of f (parameter, result, local, captured) is called name.
+func varExistsInFunc(f *ssa.Function, name string) bool {
+	if i := strings.IndexAny(name, " :("); i > 0 {
+		name = name[:i]
+	}
+	for fn := f; fn != nil; fn = fn.Parent() {
+		for _, p := range fn.Params {
+			if p.Name() == name {
+				return true
+			}
+		}
+		for _, fv := range fn.FreeVars {
+			if fv.Name() == name {
+				return true
+			}
+		}
+		if fn.Signature != nil {
+			rs := fn.Signature.Results()
+			for i := 0; i < rs.Len(); i++ {
+				if rs.At(i).Name() == name {
+					return true
+				}
+			}
+		}
+		for _, b := range fn.Blocks {
+			for _, in := range b.Instrs {
+				switch d := in.(type) {
+				case *ssa.DebugRef:
+					if d.Object() != nil && d.Object().Name() == name {
+						return true
+					}
+				case *ssa.Alloc:
+					if d.Comment == name {
+						return true
+					}
+				case *ssa.Phi:
+					if d.Comment == name {
+						return true
+					}
+				}
+			}
+		}
+	}
+	return false
 }
